@@ -552,6 +552,15 @@ _mixed('C45', 'c45_bounded',
        'The child loop of spawn_on_output (where the output is recorded) could not be brought under contract '
        '(DESIGN 11): bounded only.')
 
+# C38: parse_rm_dirs under contract (contracts/c38_rm.py)
+CLAIMS['C38'] = dict(CLAIMS['C38'], category='other', technique=_MIXED_TECH,
+                     text='PROVED relative to an os.path model (isabs(p) == p.startswith("/"); normpath an '
+                          'arbitrary function): pathutil.parse_rm_dirs - the gate between the --rm arguments and '
+                          'the deleting code - returns, for every argument list, only strings n or n + "/" '
+                          'with n = normpath(part) not absolute, not ".", not ".." and not starting with "../"; '
+                          'anything else raises InputError (nested loops, invariants). BOUNDED: '
+                          + CLAIMS['C38']['text'],
+                     note=_PROOF_NOTE + CLAIMS['C38']['note'])
 # C44 (text above, with the bounded ones) has a proved part since contracts/c44_private.py
 CLAIMS['C44'] = dict(CLAIMS['C44'], category='other', technique=_MIXED_TECH,
                      note=_PROOF_NOTE + CLAIMS['C44']['note'])
